@@ -112,7 +112,8 @@ def work(job):
     for o in (r.shim or []):
         if o["kind"] in ("openr", "openw") and o["path"].startswith(root + "/"):
             opened.add(os.path.normpath(os.path.relpath(os.path.normpath(o["path"]), root)))
-    read_out_of_scope = sorted(p for p in opened if p not in scope and not p.endswith("Breadlog.yaml") and not p.endswith("Breadlog.lock")
+    # the config file, the lock next to it (and its scratch name while it is being replaced) and TMPDIR are legitimately opened
+    read_out_of_scope = sorted(p for p in opened if p not in scope and p not in ("proj/Breadlog.yaml", "proj/Breadlog.lock", "proj/Breadlog.lock.tmp")
                                and not p.startswith("tmp/"))
     if read_out_of_scope:
         v.append(("out-of-scope-file-read", {"paths": read_out_of_scope[:4]}))
